@@ -19,7 +19,7 @@ FIELD_OWNER = {
     "extra_event": "C13", "missing_event": "C13", "stopped": "C13", "advance": "C13",
     "vars": "C03", "scan_count": "C03", "match_count": "C03", "final_vars": "C03",
     "final_match_count": "C03", "final_scan_count": "C03", "printed": "C03", "final_printed": "C03",
-    "valid": "C04", "final_valid": "C04", "final_unmatched": "C15", "final_lines": "C06", "headers": "C06",
+    "valid": "C04", "final_valid": "C04", "final_unmatched": "C15", "final_lines": "C06", "headers": "C06", "final_stdout": "C15",
 }
 
 # known findings that are modelled as named deviations of Eval.tla: finding id -> deviation name
@@ -98,6 +98,7 @@ def run(pid, tier, *, groups, judged, ncases, methods=("collect",), seed_salt=0,
     rejected = [r for r in recs if verdicts[r["tid"]][0] != "ok"]
     # ---- attribution to known findings
     explained = {}
+    closest = {}     # tid -> verdict under the union of the deviations (the model closest to the pinned implementation)
     if rejected:
         known = {fid: dev for fid, dev in DEVIATIONS.items()}
         trials = [(fid, (dev,)) for fid, dev in known.items()]
@@ -115,6 +116,8 @@ def run(pid, tier, *, groups, judged, ncases, methods=("collect",), seed_salt=0,
                     explained[r["tid"]] = fid
                 else:
                     still.append(r)
+                    if len(devs) == len(known):
+                        closest[r["tid"]] = v[r["tid"]]
             todo = still
     # ---- verdicts
     unjudged = 0
@@ -142,6 +145,11 @@ def run(pid, tier, *, groups, judged, ncases, methods=("collect",), seed_salt=0,
                 if owner == pid:
                     rep.violation(payload, finding=one)
             continue
+        if tid in closest:
+            # the trace also contains a listed finding of C01; judge what remains once those are modelled
+            verdict, at, exp = closest[tid]
+            f = field_of(verdict)
+            payload.update({"field": verdict, "at_event": at, "expected_by_spec": exp, "note": "verdict under the deviations of C01's listed findings"})
         if f not in judged:
             unjudged += 1
             continue
